@@ -97,3 +97,33 @@ Print Assumptions C04_darray_panics.
 Theorem C04_length_limit : forall bsize syms, MAX_LEN <= len syms -> rss_new bsize syms = Fault Panic.
 Proof. intros bsize syms H. unfold rss_new. replace (len syms <? MAX_LEN) with false by (symmetry; apply N.ltb_ge; exact H). reflexivity. Qed.
 Print Assumptions C04_length_limit.
+
+(* ---- the derived Default values that are NOT produced by a constructor ---- *)
+From QwtModel Require Import State.
+(* RSNarrow::default() / RSWide::default(): every field empty; every query answers None / 0 *)
+Theorem C04_default_rsnarrow : forall i,
+  rsn_get rsn_default i = Val None /\ rsn_rank1 rsn_default i = Val None /\ rsn_rank0 rsn_default i = Val None /\
+  rsn_select1 rsn_default i = Val None /\ rsn_select0 rsn_default i = Val None /\
+  rsn_n_ones rsn_default = Val 0 /\ rsn_n_zeros rsn_default = Val 0.
+Proof. intros i. repeat split; try reflexivity; destruct i; reflexivity. Qed.
+Print Assumptions C04_default_rsnarrow.
+Theorem C04_default_rswide : forall i,
+  rsw_get rsw_default i = Val None /\ rsw_rank1 rsw_default i = Val None /\ rsw_rank0 rsw_default i = Val None /\
+  rsw_select1 rsw_default i = Val None /\ rsw_select0 rsw_default i = Val None /\ rsw_n_ones rsw_default = Val 0.
+Proof. intros i. repeat split; try reflexivity; destruct i; reflexivity. Qed.
+Print Assumptions C04_default_rswide.
+(* HuffQWaveletTree::default(): no code table, no level *)
+Theorem C04_default_hqwt : forall w bsize c i,
+  hq_get w bsize hq_default i = Val None /\ hq_rank bsize hq_default c i = Val None /\
+  hq_rank_prefetch bsize hq_default c i = Val None /\ hq_select bsize hq_default c i = Val None.
+Proof.
+  intros w bsize c i.
+  assert (Hc : hq_code_of hq_default c = None).
+  { unfold hq_code_of, hq_default; cbn [h_codes]. change (len (@nil pcode)) with 0.
+    replace (0 <=? sym_index c) with true by (symmetry; apply N.leb_le; apply N.le_0_l).
+    rewrite Bool.orb_true_r. reflexivity. }
+  unfold hq_get, hq_rank, hq_rank_prefetch, hq_select. rewrite Hc. cbn [h_n hq_default].
+  replace (0 <=? i) with true by (symmetry; apply N.leb_le; apply N.le_0_l).
+  repeat split; try reflexivity; destruct (0 <? i); reflexivity.
+Qed.
+Print Assumptions C04_default_hqwt.
